@@ -13,7 +13,8 @@ open Rsj.Core Rsj.Eval Rsj.Analyze
     their expressions are value expressions of members of the literal -/
 def ObjAcc (ms : Members) (layer0 layer : Layer) : Prop :=
   ∃ fs : List Field, layer = { layer0 with fields := fs } ∧
-    ∀ f ∈ fs, f.baseEnv = none ∧ ∀ ep, f.expr = some ep → ∃ m ∈ membersList ms, memberValue m = some ep.1
+    ∀ f ∈ fs, f.baseEnv = none ∧ (∀ ep, f.expr = some ep → ∃ m ∈ membersList ms, memberValue m = some ep.1) ∧
+      (f.thunk = none → f.expr.isSome = true)
 
 theorem ObjAcc.init (ms : Members) (layer0 : Layer) (h : layer0.fields = []) : ObjAcc ms layer0 layer0 :=
   ⟨[], by cases layer0; simp_all, by simp⟩
@@ -26,7 +27,7 @@ theorem ObjAcc.step {ms : Members} {layer0 layer r : Layer} {m : Members} (h : O
   intro f hf
   rcases List.mem_append.1 hf with h | h
   · exact hfs f h
-  · exact ⟨(hfs' f h).1, fun ep hep => ⟨m, hm, (hfs' f h).2 ep hep⟩⟩
+  · exact ⟨(hfs' f h).1, fun ep hep => ⟨m, hm, (hfs' f h).2.1 ep hep⟩, (hfs' f h).2.2⟩
 
 theorem object_layerOk {envs : Array Env} {env : EId} {Γ : AEnv} {ms : Members} {isTop : Bool} {layer : Layer}
     (hΓ : EnvOk envs env Γ) (htop : isTop = false → EnvOk envs env objΓ) (hws : WSObj ms Γ)
@@ -49,11 +50,17 @@ theorem object_layerOk {envs : Array Env} {env : EId} {Γ : AEnv} {ms : Members}
     · intro f hf _ ep hep
       show WS ep.1 (objEnv Γ ((memberLocals ms).map Prod.fst))
       rw [map_fst_memberLocals]
-      obtain ⟨m, hm, hv⟩ := (hfs f hf).2 ep hep
+      obtain ⟨m, hm, hv⟩ := (hfs f hf).2.1 ep hep
       exact MemberOk_value (h3 m hm) hv
   · intro f hf b hb
     rw [(hfs f hf).1] at hb; cases hb
   · intro e he; cases he
+
+theorem object_layerShape {ms : Members} {isTop : Bool} {env : EId} {layer : Layer}
+    (hacc : ObjAcc ms { isTop := isTop, locals := memberLocals ms, baseEnv := some env, env := none,
+                        fields := [], asserts := memberAsserts ms } layer) : LayerShape layer := by
+  obtain ⟨fs, rfl, hfs⟩ := hacc
+  exact ⟨fun _ _ _ => rfl, fun _ => rfl, fun f hf => (hfs f hf).2.2⟩
 
 theorem member_taskOk {a b : St} {env : EId} {Γ : AEnv} {ms : Members} {m : Members} {d : Nat}
     (hk : EnvOk a.envs env Γ) (hS : S a b) (hws : WSObj ms Γ) (hm : m ∈ membersList ms) :
@@ -78,7 +85,7 @@ theorem top_envOk {a b : St} {env : EId} {penv : Env} (hp : a.envs[env]? = some 
 def CompAcc (envs : Array Env) (Γ' : AEnv) (isTop : Bool) (body : Expr) (layer0 layer : Layer) : Prop :=
   ∃ fs : List Field, layer = { layer0 with fields := fs } ∧
     ∀ f ∈ fs, ∃ b, f.baseEnv = some b ∧ EnvOk envs b Γ' ∧ (isTop = false → EnvOk envs b objΓ) ∧
-      ∀ ep, f.expr = some ep → ep.1 = body
+      (∀ ep, f.expr = some ep → ep.1 = body) ∧ (f.thunk = none → f.expr.isSome = true)
 
 theorem CompAcc.init (envs : Array Env) (Γ' : AEnv) (isTop : Bool) (body : Expr) (layer0 : Layer)
     (h : layer0.fields = []) : CompAcc envs Γ' isTop body layer0 layer0 :=
@@ -119,7 +126,7 @@ theorem comp_layerOk {envs : Array Env} {Γ' : AEnv} {isTop : Bool} {body : Expr
   refine ⟨?_, ?_, ?_⟩
   · intro b hb; cases hb
   · intro f hf b hb
-    obtain ⟨b', g1, g2, g3, g4⟩ := hfs f hf
+    obtain ⟨b', g1, g2, g3, g4, _⟩ := hfs f hf
     rw [g1] at hb; cases hb
     refine ⟨Γ', g2, g3, ?_, ?_⟩
     · intro p hp
@@ -130,10 +137,21 @@ theorem comp_layerOk {envs : Array Env} {Γ' : AEnv} {isTop : Bool} {body : Expr
       rw [map_fst_bindsList, g4 ep hep]; exact hbody
   · intro e he; cases he
 
-theorem layerOk_singleton {EO : EId → AEnv → Prop} {l r : Layer} (h : l ∈ [r]) (hr : LayerOk EO r) :
-    LayerOk EO l := by
+theorem comp_layerShape {envs : Array Env} {Γ' : AEnv} {isTop : Bool} {body : Expr} {locals : Binds} {layer : Layer}
+    (hacc : CompAcc envs Γ' isTop body (compLayer0 isTop locals) layer) : LayerShape layer := by
+  obtain ⟨fs, rfl, hfs⟩ := hacc
+  refine ⟨?_, fun h => absurd rfl h, ?_⟩
+  · intro f hf hb
+    obtain ⟨b', g1, _⟩ := hfs f hf
+    rw [g1] at hb; cases hb
+  · intro f hf
+    obtain ⟨b', _, _, _, _, g5⟩ := hfs f hf
+    exact g5
+
+theorem layerOk_singleton {EO : EId → AEnv → Prop} {l r : Layer} (h : l ∈ [r]) (hr : LayerOk EO r)
+    (hs : LayerShape r) : LayerOk EO l ∧ LayerShape l := by
   simp only [List.mem_singleton] at h
-  subst h; exact hr
+  subst h; exact ⟨hr, hs⟩
 
 /-- a child environment inherits the object context -/
 theorem child_objΓ {envs : Array Env} {env outer : EId} {vars : List (String × TId)}
@@ -193,6 +211,7 @@ theorem step_eval_object (s : St) (ms : Members) (env : EId) (tail : Bool) (d : 
        exact ⟨hI, S.refl _, ObjAcc.init _ _ rfl⟩)
     | exact layerOk_singleton (by assumption)
         (object_layerOk (S.env (by schain) _ _ hΓ) (top_envOk hpenv (by schain)) hws' (by assumption))
+        (object_layerShape (by assumption))
 
 theorem step_eval_objectComp (s : St) (locals : Binds) (name : Expr) (plus : Bool) (body : Expr) (spec : Specs)
     (env : EId) (tail : Bool) (d : Nat) (hI : Inv s)
@@ -230,6 +249,7 @@ theorem step_eval_objectComp (s : St) (locals : Binds) (name : Expr) (plus : Boo
        obtain rfl := Option.some.inj (hpenv.symm.trans hr)
        exact ⟨by assumption, by schain, CompAcc.init _ _ _ _ _ rfl⟩)
     | exact layerOk_singleton (by assumption) (comp_layerOk (by assumption) hw3 hw5)
+        (comp_layerShape (by assumption))
 
 end
 end Rsj.Eval.Scope
